@@ -239,7 +239,10 @@ pub fn run(base: Instant, s: &Scn, devs: &Devs, alts: &[Fate], dump: bool) -> Ou
                     }
                     let (pk, _) = crate::wire::parse_datagram(data, scl);
                     let Some(first) = pk.first() else { continue };
-                    if first.dcid.is_empty() || !seen.insert((*ts, first.dcid.clone())) {
+                    // (with zero-length connection IDs the route is the address pair: one probe per
+                    // source address the dead connection used)
+                    let key = if first.dcid.is_empty() { format!("{src}").into_bytes() } else { first.dcid.clone() };
+                    if !seen.insert((*ts, key)) {
                         continue;
                     }
                     probes.push((*ts, first.dcid.clone(), *src, *dst, data.clone()));
